@@ -10,6 +10,7 @@ checked_sub / clamped_sub / partial_cmp: 7 x 7 bundle shapes over 2 policies x 2
   checked_sub : lovelace and every asset exact, Err on underflow of any of them (since fix fd1ee69; before, assets
                 were clamped at 0 silently); result has no assets iff every asset reached 0
   clamped_sub : every component max(l - r, 0)
+  partial_cmp : (MultiAsset) the pointwise order: Equal / Less / Greater when every asset agrees on the direction, else None
   eq          : lovelace equal and every asset equal (here: q equal, 'other' parts equal as uninterpreted identities)
 """
 import re
@@ -192,6 +193,19 @@ def s_ma_len(E, c, args):
     return VInt(n, "usize")
 
 
+def s_ma_partial_cmp(E, c, args):
+    """MultiAsset::partial_cmp: pointwise order; is_all_zeros(a, b) <=> every asset of a is <= its quantity in b"""
+    a, b = ma_parts(E, args[0]), ma_parts(E, args[1])
+    le_ab, le_ba = E.fresh("others_le", "bool"), E.fresh("others_ge", "bool")
+    E.pc.append(z3.Implies(z3.Not(a[1]), le_ab))
+    E.pc.append(z3.Implies(z3.Not(b[1]), le_ba))
+    az, bz = z3.And(a[0] <= b[0], le_ab), z3.And(b[0] <= a[0], le_ba)
+    i = E.choose([z3.And(az, bz), z3.And(az, z3.Not(bz)), z3.And(z3.Not(az), bz), z3.And(z3.Not(az), z3.Not(bz))], "multiasset order")
+    if i == 3:
+        return VEnum("Option", "None", [])
+    return VEnum("Option", "Some", [VEnum("Ordering", ["Equal", "Less", "Greater"][i], [])])
+
+
 def s_btree_new(E, c, args):
     return VStruct("#AssetMap", [VInt(0, "u64"), VBool(False), None])
 
@@ -205,6 +219,7 @@ SUMMARIES = {
     r"BTreeMap::<.*ScriptHash, Assets>::(len|is_empty)$": s_btree_len,
     r"(^|::)MultiAsset::sub$": s_ma_sub,
     r"(^|::)MultiAsset::len$": s_ma_len,
+    r"^<MultiAsset as PartialOrd>::partial_cmp$": s_ma_partial_cmp,
 }
 
 
